@@ -31,10 +31,7 @@ Print Assumptions C20_terminator_is_the_generated_one.
 Theorem C20_generated_wire_roundtrip : forall d,
   exists p w, dot_stuff d = Ok p /\ Asimap.Gen.DotStuff.end_multiline p = Ok w /\
     receive w = Some (if negb (is_nil d) && negb (ends_crlf d) then d ++ crlf else d).
-Proof.
-  intros d. destruct (stuffing d) as [p [Hp [_ [_ Hr]]]].
-  exists p, (Pop3M.end_multiline p). split; [exact Hp|]. split; [apply end_multiline_is_generated|exact Hr].
-Qed.
+Proof. exact generated_wire_roundtrip. Qed.
 Print Assumptions C20_generated_wire_roundtrip.
 
 (* From any well-formed INBOX, after a session is opened, under ANY sequence of POP3 commands
